@@ -337,6 +337,9 @@ impl PropImpl for C20 {
             "relation fields contain no substitution variables (the lossy relations reader does not claim them)".into(),
         ]
     }
+    fn expected_labels(&self) -> Vec<&'static str> {
+        vec!["kind:control", "kind:copyright", "kind:apt-release", "kind:apt-source", "kind:apt-package", "kind:removal", "kind:buildinfo", "kind:dep3", "kind:apt-sources", "invalid:no-source-paragraph", "invalid:two-source-paragraphs", "invalid:paragraph-of-neither-kind", "invalid:not-starting-with-format", "invalid:missing-mandatory-field", "well-formed", "has-comment", "has-multi-line-value", "dep3-mail-header-form"]
+    }
     fn budget(&self, tier: Tier) -> Budget {
         Budget { cases_per_lane: if tier == Tier::Quick { 7500 } else { 40_000 }, tape_max: 600, cpu_s: 10 }
     }
